@@ -176,7 +176,7 @@ func (s *Solver) readSexp() string {
 }
 
 // GetValues returns the model values of the given variables.
-func (s *Solver) GetValues(vars []*Term) (map[string]uint64, error) {
+func (s *Solver) GetValues(vars []*Term, asInt bool) (map[string]uint64, error) {
 	m := make(map[string]uint64, len(vars))
 	if len(vars) == 0 {
 		return m, nil
@@ -184,7 +184,11 @@ func (s *Solver) GetValues(vars []*Term) (map[string]uint64, error) {
 	var sb strings.Builder
 	sb.WriteString("(get-value (")
 	for _, v := range vars {
-		sb.WriteString(v.name)
+		if asInt && v.w > 0 {
+			sb.WriteString(intName(v))
+		} else {
+			sb.WriteString(v.name)
+		}
 		sb.WriteString(" ")
 	}
 	sb.WriteString("))\n")
@@ -209,7 +213,15 @@ func (s *Solver) GetValues(vars []*Term) (map[string]uint64, error) {
 		i++
 		// value: either atom, or ( _ bvN w )
 		var val uint64
-		if toks[i] == "(" {
+		if toks[i] == "(" && i+2 < len(toks) && toks[i+1] == "-" {
+			// (- N)
+			u, err := strconv.ParseUint(toks[i+2], 10, 64)
+			if err != nil {
+				return nil, fmt.Errorf("bad value %q", toks[i+2])
+			}
+			val = uint64(-int64(u))
+			i += 4
+		} else if toks[i] == "(" {
 			// (_ bvN w)
 			j := i
 			for j < len(toks) && toks[j] != ")" {
@@ -245,13 +257,17 @@ func (s *Solver) GetValues(vars []*Term) (map[string]uint64, error) {
 				}
 				val = u
 			default:
-				return nil, fmt.Errorf("unparsed value %q in %s", tk, txt)
+				u, err := strconv.ParseUint(tk, 10, 64)
+				if err != nil {
+					return nil, fmt.Errorf("unparsed value %q in %s", tk, txt)
+				}
+				val = u
 			}
 		}
 		if i < len(toks) && toks[i] == ")" {
 			i++
 		}
-		m[name] = val
+		m[strings.TrimSuffix(name, "!i")] = val
 	}
 	if len(m) != len(vars) {
 		return nil, fmt.Errorf("get-value: expected %d values, got %d: %s", len(vars), len(m), txt)
